@@ -321,6 +321,12 @@ theorem index_eq_flatten_two_whiteouts_counterexample :
     Ex.reportedNotInImage Ex.S0 Ex.twoWhiteouts "requests-1" "lang:a/x" := by decide
 
 set_option maxRecDepth 10000 in
+/-- clause `oneWhiteout`, second half: a directory named `.wh.x` is reported by the whiteout scanner (it looks
+    at names only) and deletes the package from the report; as a layer entry it is an ordinary directory. -/
+theorem index_eq_flatten_whiteout_directory_counterexample :
+    Ex.inImageNotReported Ex.S0 Ex.whiteoutDirectory "requests-1" "lang:a/x" := by decide
+
+set_option maxRecDepth 10000 in
 /-- clause `noOverwrite` (finding lang-overwrite-in-place): the overwritten package stays reported. -/
 theorem index_eq_flatten_overwrite_counterexample :
     Ex.reportedNotInImage Ex.S0 Ex.overwritten "left-pad-1" "lang:app/node_modules/left-pad/package.json" := by decide
